@@ -245,6 +245,11 @@ def replay(case):
         b.run_step()
         got = b.session_state["step"]
         return got != g(1), "session clock after a step at t=%r with dt=%r is %r, grid value is %r" % (g(0), dt, got, g(1))
+    if name == "timerange-concrete":
+        want = [G_py(start, dt, i) for i in range(k + 1)]
+        got = list(fpm.timerange(start, want[-1], dt, exclusive=False))
+        return got != want, "timerange(%r, %r, %r, exclusive=False) yields %d points ending %r; the grid has %d points ending %r" % (
+            start, want[-1], dt, len(got), got[-2:], len(want), want[-2:])
     if name == "timerange-step":
         tr = fpm.timerange(g(0), g(0) + 3 * dt, dt)
         # the real loop started at G(k)?  no: timerange offsets from its own start; replay the whole range from start
@@ -267,6 +272,26 @@ def replay(case):
         m.memoize("probe", arg)
         return seen[-1] != want, "memoize normalises %r to %r, grid value is %r (start=%r dt=%r)" % (arg, seen[-1], want, start, dt)
     return False, "unknown obligation %s" % name
+
+
+def concrete_probe(points):
+    """the REAL timerange, as SdSimulation calls it, on concrete lattice inputs: run lengths 0..60 and every 37th up to
+    K.  This is not the deciding step (the solver queries are); it validates that what the queries encode is what the
+    real function does, and it still yields a replayable violation when the source no longer has the encodable shape."""
+    import BPTK_Py.util.floating_point as fpm
+    bad = []
+    for (start, dt, K, _) in points:
+        for n in list(range(0, 61)) + list(range(61, K + 1, 37)):
+            want = [G_py(start, dt, i) for i in range(n + 1)]
+            try:
+                got = list(fpm.timerange(start, want[-1], dt, exclusive=False))
+            except Exception as e:
+                bad.append((start, dt, n, "raised %r" % (e,)))
+                break
+            if got != want:
+                bad.append((start, dt, n, "yields %d points ending %r, the grid has %d ending %r" % (len(got), got[-2:], len(want), want[-2:])))
+                break
+    return bad
 
 
 # ------------------------------------------------------------------ self-validation of round(y, p)
@@ -323,10 +348,13 @@ def run(tier):
     bad = validate_round(24 if tier == "quick" else 80, harness.seed())
     for b in bad:
         rep.inconcl("self-validation of the round(y,p) encoding failed: %s" % b)
+    for (st_, dt_, n_, what) in concrete_probe(BASE):
+        rep.candidate("timerange-concrete:dt=%g" % dt_, {"start": st_, "dt": dt_, "k": n_, "name": "timerange-concrete"},
+                      "timerange(%r, G(%d), %r, exclusive=False) %s" % (st_, n_, dt_, what))
     try:
         src = sources()
-    except fp.Unsupported as e:
-        rep.inconcl("source extraction: %s" % e)
+    except Exception as e:
+        rep.inconcl("source extraction (the loop/normalisation no longer has the shape the encoder understands): %r" % (e,))
         return rep.finish()
     jobs = []
     for (start, dt, K, chains) in lattice(tier):
